@@ -149,8 +149,19 @@ def _refiled_cases():
                     yield {'spec': tree, 'inputs': copy.deepcopy(inputs), 'refile': refile}
 
 
+def _strict_port_cases():
+    """A spec class with its own input port class that refuses None, at the top and in nested namespaces."""
+    for req in (True, False):
+        for dyn in (True, False):
+            tree = pm.ns({'p': pm.port(required=req), 'd': pm.port(required=False, default=['plain', 1]), 'sub': pm.ns({'q': pm.port(required=False), 'deep': pm.ns({'r': pm.port(required=False)})}, dynamic=dyn)}, dynamic=dyn)
+            for inputs in ({'p': 1}, {'p': None}, {'p': 1, 'd': None}, {'p': 1, 'sub': {'q': None}}, {'p': 1, 'sub': {'q': 2, 'deep': {'r': None}}}, {'p': 0, 'sub': {'q': 2, 'deep': {'r': 3}}}, {'p': 1, 'extra': None}, {'p': 1, 'sub': {'extra': None}}, {'p': 1, 'sub': {'extra': {'e': 1}}}):
+                for strict in (True, False):
+                    yield {'spec': tree, 'inputs': copy.deepcopy(inputs), 'strict_ports': strict}
+
+
 def enumerate_cases(tier, scope):
     if scope == 'dynamic':
+        yield from _strict_port_cases()
         yield from _refiled_cases()
         yield from _typed_validator_cases()
         yield from _falsy_default_cases()
@@ -283,6 +294,8 @@ def _cases(draw, tier):
     case = {'spec': tree, 'inputs': inputs}
     if draw(st.integers(0, 3)) == 0:
         case['adjust'] = draw(_adjustments(tree))
+    elif draw(st.integers(0, 2)) == 0:
+        case['strict_ports'] = True
     return case
 
 
@@ -313,6 +326,16 @@ def _no_tuples(value):
     return True
 
 
+def _none_default(tree):
+    for sub in tree['ports'].values():
+        if sub['kind'] == 'ns':
+            if _none_default(sub):
+                return True
+        elif sub.get('default') is not None and sub['default'][1] is None:
+            return True
+    return False
+
+
 def execute(case):
     viol = []
     reloaded = False
@@ -324,9 +347,17 @@ def execute(case):
     declared = case['spec']
     tree = pm.refiled(pm.adjusted(declared, case.get('adjust')), case.get('refile'))
     given = case['inputs']
+    # (defaults are valid for their port by construction: a tree with a None default is not declared under that class)
+    strict = bool(case.get('strict_ports')) and not case.get('adjust') and not case.get('refile') and not _none_default(declared)
+    if strict:
+        # the spec class of the process brings its own input port class (ProcessSpec.INPUT_PORT_TYPE) and namespace class,
+        # both refusing None: every declared port is of that class
+        tree = pm.mark_strict(tree)
     # the model decides first
     accepted, parsed = pm.accepts_inputs(tree, copy.deepcopy(given) if given is not None else {})
     program = {'steps': [{'async': False, 'body': [], 'ret': ['value', 0]}], 'spec': {'inputs': declared, 'adjust': case.get('adjust') or [], 'refile': [['input', path, new] for path, new in case.get('refile') or []]}}
+    if strict:
+        program['spec']['strict_ports'] = True
     cls = make_class(program)
     caller = copy.deepcopy(given)
     snapshot = copy.deepcopy(caller)
@@ -419,6 +450,8 @@ def execute(case):
         classes.append('not-savable:' + load_note)
     if case.get('adjust'):
         classes.append('spec-adjusted-after-declaration')
+    if strict:
+        classes.append('spec-class-with-own-input-port-class')
     return {
         'violations': viol,
         'nontrivial': bool(nested and (not accepted or populated)),
